@@ -120,8 +120,7 @@ def unpackNumeric (C : DecCodec) (data : Str) (cimtype : Option Str) : R Atom :=
         | .int v => pure v
         | .float b => match C.truncFloat b with
           | .ok v => pure v
-          | .error .valueError => perr           -- `except ValueError` around CIMType(value): NaN
-          | .error e => .error e)                -- OverflowError for INF escapes
+          | .error _ => perr)                    -- `except (ValueError, OverflowError)` around CIMType(value)
       if t.lo ≤ v ∧ v ≤ t.hi then pure (.int t v) else perr
     | none =>
       if ty = "real32".toList ∨ ty = "real64".toList then
@@ -130,7 +129,7 @@ def unpackNumeric (C : DecCodec) (data : Str) (cimtype : Option Str) : R Atom :=
         | .float b => pure (.real w b)
         | .int v => match C.floatOfInt v with
           | some b => pure (.real w b)
-          | none => .error .overflowError       -- float(int) of a huge int escapes
+          | none => perr                        -- float(int) of a huge int: OverflowError, caught
       else perr
 
 def unpackBoolean (data : Str) : R (Option Bool) :=
@@ -201,13 +200,13 @@ def getAttrD (as : List (Str × Str)) (k : String) (d : String) : Str := (Xml.at
 def boolAttrOf (as : List (Str × Str)) (k : String) (d : String) : R (Option Bool) :=
   unpackBoolean (getAttrD as k d)
 
-/-- ARRAYSIZE: `int(array_size)` — a ValueError here is NOT caught by the code -/
+/-- `unpack_arraysize`: `int(array_size)`, ValueError -> CIMXMLParseError -/
 def arraySizeOf (as : List (Str × Str)) : R (Option Nat) :=
   match Xml.attr as "ARRAYSIZE".toList with
   | none => pure none
   | some s => match pyInt s with
     | some v => pure (some v.toNat)
-    | none => .error .valueError
+    | none => perr
 
 def embAttrOf (as : List (Str × Str)) : Option Str :=
   match Xml.attr as "EmbeddedObject".toList with
@@ -517,9 +516,10 @@ def embItems : List Atom → R (List Atom)
     let a ← emb s
     let r ← embItems rest
     pure (a :: r)
-  | a :: rest => do
+  | .null :: rest => do
     let r ← embItems rest
-    pure (a :: r)
+    pure (.null :: r)
+  | _ :: _ => perr                               -- 'Embedded object value must be a string'
 
 def embVal (v : Val) : R Val :=
   match v with
@@ -527,7 +527,7 @@ def embVal (v : Val) : R Val :=
   | .scalar (.str s) => do
     let a ← emb s
     pure (.scalar a)
-  | .scalar a => pure (.scalar a)
+  | .scalar _ => perr                            -- 'Embedded object value must be a string'
   | .array l => do
     let r ← embItems emb l
     pure (.array r)
